@@ -35,9 +35,16 @@ def snkHold (pc : SnkPc) : Bool :=
 
 /-- the client's `flush_reader` of the sink's reader of stream `s` is between its map and its unmap -/
 def clHolds0 (pc : CPc) (s : Nat) : Bool :=
-  match pc with
-  | .flushRmapNotify x 0 | .flushAfterRead x 0 | .flushUnmapLock x 0 false => x = s
-  | _ => false
+  pc = .flushRmapNotify s 0 || pc = .flushAfterRead s 0 || pc = .flushUnmapLock s 0 false
+
+/-- the client's `flush_reader` of the monitor reader of stream `s`, past the "is it registered" test -/
+def clFlush1 (pc : CPc) (s : Nat) : Bool :=
+  pc = .flushRmapLock s 1 || pc = .flushRmapNotify s 1 || pc = .flushAfterRead s 1 || pc = .flushUnmapLock s 1 true ||
+  pc = .flushUnmapLock s 1 false || pc = .flushUnmapNotify s 1 true || pc = .flushUnmapNotify s 1 false
+
+/-- … at a point where the monitor reader is not mapped -/
+def clFlush1Free (pc : CPc) (s : Nat) : Bool :=
+  pc = .flushRmapLock s 1 || pc = .flushUnmapNotify s 1 true || pc = .flushUnmapNotify s 1 false
 
 structure DUse (s : Nat) (st : Stream) (cl : Client) : Prop where
   ok : Ok st.sinkCh
@@ -50,15 +57,17 @@ structure DUse (s : Nat) (st : Stream) (cl : Client) : Prop where
   wlen : (cv st.sinkCh).pending = true → (cv st.sinkCh).wlen = st.F
   rd0 : (cv st.sinkCh).m0 = true → snkHold st.snk.pc = true ∨ clHolds0 cl.pc s = true
   rd0pos : snkHold st.snk.pc = true → (cv st.sinkCh).i0 = st.snk.idx ∧ (cv st.sinkCh).l0 = st.snk.len
-  mon : (cl.pc = .mapLock s ∨ cl.pc = .flushRmapLock s 1) → st.monReg = true → (cv st.sinkCh).m1 = false
+  mon : (cl.pc = .mapLock s ∨ clFlush1Free cl.pc s = true) → st.monReg = true → (cv st.sinkCh).m1 = false
+  mon1 : clFlush1 cl.pc s = true → st.monReg = true
+  fl0 : clHolds0 cl.pc s = true → (cv st.sinkCh).m0 = decide (0 < cl.flushLen)
 
-/-- the invariant, with its premises: the camera has no scripted failure, the client has not broken a usage rule -/
 @[simp] theorem cv_pending (s : Sys) : (cv s).pending = s.pending := rfl
 @[simp] theorem cv_wlen (s : Sys) : (cv s).wlen = s.wlen := rfl
 @[simp] theorem cv_total (s : Sys) : (cv s).total = s.total := rfl
 @[simp] theorem cv_nrd (s : Sys) : (cv s).nrd = s.rds.length := rfl
 @[simp] theorem cv_acc (s : Sys) : (cv s).acc = s.c.accepting := rfl
 
+/-- the invariant, with its premises: the camera has no scripted failure, the client has not broken a usage rule -/
 def DUseP (s : Nat) (st : Stream) (cl : Client) : Prop :=
   st.cam.failAt = none → st.cam.emptyEvery = 0 → cl.misused = false → DUse s st cl
 
